@@ -21,24 +21,34 @@ use framehop::{
 };
 
 // ---------- counting allocator ----------
+// Counts allocator calls made by the thread that runs the script while COUNT_ON is set; the
+// watchdog thread (and any other) is not counted, so the count is deterministic.
 struct CountingAlloc;
 static ALLOCS: AtomicU64 = AtomicU64::new(0);
 static COUNT_ON: AtomicBool = AtomicBool::new(false);
+thread_local! {
+    // const-initialised: reading it never allocates
+    static IS_SCRIPT_THREAD: std::cell::Cell<bool> = const { std::cell::Cell::new(false) };
+}
+#[inline]
+fn counted() -> bool {
+    COUNT_ON.load(Ordering::Relaxed) && IS_SCRIPT_THREAD.try_with(|c| c.get()).unwrap_or(false)
+}
 unsafe impl GlobalAlloc for CountingAlloc {
     unsafe fn alloc(&self, l: Layout) -> *mut u8 {
-        if COUNT_ON.load(Ordering::Relaxed) {
+        if counted() {
             ALLOCS.fetch_add(1, Ordering::Relaxed);
         }
         System.alloc(l)
     }
     unsafe fn dealloc(&self, p: *mut u8, l: Layout) {
-        if COUNT_ON.load(Ordering::Relaxed) {
+        if counted() {
             ALLOCS.fetch_add(1, Ordering::Relaxed);
         }
         System.dealloc(p, l)
     }
     unsafe fn realloc(&self, p: *mut u8, l: Layout, n: usize) -> *mut u8 {
-        if COUNT_ON.load(Ordering::Relaxed) {
+        if counted() {
             ALLOCS.fetch_add(1, Ordering::Relaxed);
         }
         System.realloc(p, l, n)
@@ -618,6 +628,7 @@ fn now_ms() -> u64 {
 }
 
 fn run<A: ArchOps>(lines: Vec<String>, hang_ms: u64) {
+    IS_SCRIPT_THREAD.with(|c| c.set(true));
     let stdout = std::io::stdout();
     let mut out = std::io::BufWriter::new(stdout.lock());
     let mut mems: HashMap<String, HashMap<u64, u64>> = HashMap::new();
